@@ -736,6 +736,75 @@ def _owner_loop(loop: ast.For, node: ast.AST) -> bool:
     return best is loop
 
 
+
+def check_rhs_results_not_mutated(rep: Report, ix):
+    """the compiled right-hand side may return (an alias of) its argument -- e.g. for du/dt = u the numba rhs hands back the
+    state array itself -- so a stepper that updates the returned array in place (`k1 = rhs(u, t); k1 *= dt`) changes the state
+    before the remaining stages are evaluated, while the interpreted rhs always allocates: the back-ends diverge and the step
+    is no longer the scheme.  Rule: in every stepping closure no value bound directly to a call of the rate function is the
+    target of an augmented assignment, an element store or an `out=` argument."""
+    rate_makers = ("make_pde_rhs", "make_evolution_rate", "_make_pde_rhs")
+    n = 0
+    files = [m for rel, m in ix.modules.items() if rel.startswith("pde/solvers/") or rel == "pde/backends/numba/_solvers.py"]
+    for m in files:
+        for f in m.functions.values():
+            if f.parent is None:
+                continue
+            # names of rate functions visible in this closure: bound in an enclosing function from a rate maker
+            rate_names = set()
+            p = f.parent
+            while p is not None:
+                for st in ast.walk(p.node):
+                    if isinstance(st, ast.Assign) and len(st.targets) == 1 and isinstance(st.targets[0], ast.Name) and isinstance(st.value, ast.Call) and dotted(st.value.func).split(".")[-1] in rate_makers:
+                        rate_names.add(st.targets[0].id)
+                p = p.parent
+            rate_names |= {a.arg for a in f.node.args.args if a.arg in ("rhs", "rhs_pde")}
+            if not rate_names:
+                continue
+            own_nested = {id(x) for g in f.nested() for x in ast.walk(g.node)}
+            bound: dict[str, int] = {}
+            for st in ast.walk(f.node):
+                if id(st) in own_nested:
+                    continue
+                if isinstance(st, ast.Assign) and len(st.targets) == 1 and isinstance(st.targets[0], ast.Name) and isinstance(st.value, ast.Call) and isinstance(st.value.func, ast.Name) and st.value.func.id in rate_names:
+                    bound[st.targets[0].id] = st.lineno
+            if not bound:
+                continue
+            n += 1
+            rep.saw("stepping closures calling the rate function", f.ref)
+            for st in ast.walk(f.node):
+                if id(st) in own_nested:
+                    continue
+                tgt = None
+                if isinstance(st, ast.AugAssign):
+                    t = st.target
+                    base = t.value if isinstance(t, ast.Subscript) else t
+                    if isinstance(base, ast.Name) and base.id in bound:
+                        tgt = (base.id, ast.unparse(st)[:60])
+                elif isinstance(st, ast.Assign):
+                    for t in st.targets:
+                        if isinstance(t, ast.Subscript) and isinstance(t.value, ast.Name) and t.value.id in bound:
+                            tgt = (t.value.id, ast.unparse(st)[:60])
+                elif isinstance(st, ast.Call):
+                    for k in st.keywords:
+                        if k.arg == "out" and isinstance(k.value, ast.Name) and k.value.id in bound:
+                            tgt = (k.value.id, ast.unparse(st)[:60])
+                if tgt:
+                    # a later re-binding of the same name to a fresh expression before the update would be fine; keep it simple:
+                    # only names whose every binding is a rate call are judged
+                    binds = [x for x in ast.walk(f.node) if id(x) not in own_nested and isinstance(x, ast.Assign) and any(isinstance(tt, ast.Name) and tt.id == tgt[0] for tt in x.targets)]
+                    if all(isinstance(b.value, ast.Call) and isinstance(b.value.func, ast.Name) and b.value.func.id in rate_names for b in binds):
+                        rep.violation(
+                            "C06.rhs-result-mutated",
+                            f"{f.ref}::{tgt[0]}",
+                            f"`{tgt[1]}` updates in place the array returned by the rate function (bound at line {bound[tgt[0]]}); a compiled rate may return its argument (du/dt = u), so this changes "
+                            "the state between the stages and the interpreted and compiled steppers disagree",
+                            line=st.lineno,
+                        )
+    rep.oblige("no stepping closure updates the array returned by the rate function in place", not any(x.rule == "C06.rhs-result-mutated" for x in rep.findings), n)
+    rep.floor("stepping closures that bind a result of the rate function", n, 5)
+
+
 def check(tier: str) -> Report:
     rep = Report("C06", tier, "proof", "tableau extraction by abstract interpretation with an uninterpreted right-hand side; rooted-tree order conditions; fixed-point solution of implicit iterations; sibling comparison of stepping loops")
     rep.explanation = (
@@ -817,6 +886,7 @@ def check(tier: str) -> Report:
     check_adams_bashforth(rep, ix)
     check_adaptive(rep, ix)
     check_convergence_measure(rep, ix)
+    check_rhs_results_not_mutated(rep, ix)
     rep.floor("stepping constructs analysed", len(rep.analysed.get("steppers", [])) + len(rep.analysed.get("adaptive loops", [])), 16)
     rep.assumptions += [
         "post-step hooks are the identity on the state (default)",
